@@ -134,12 +134,125 @@ def _prune_cache(keep, max_entries=12):
         pass
 
 
-def load(config="default", repo=None):
+def _local_callees(f):
+    out = set()
+    for blk in (f.get("mir") or {}).get("blocks", []):
+        t = blk.get("term")
+        if t and t.get("k") == "call":
+            fn = t.get("func") or {}
+            if fn.get("local") and (fn.get("resolved") or fn.get("declared")):
+                out.add(fn.get("resolved") or fn["declared"])
+    return out
+
+
+def normalize_renames(text, doc):
+    """A private function that was merely renamed (or moved between `impl X { fn f(&self) }` and a free `fn f(x: &X)` of the same
+    file) is given back the name the rules know it by.  Candidates come from glcheck/anchors.json (tools/freeze_anchors.py): a
+    known function that is missing, and exactly one unknown function of the same file with the same parameter and result types
+    whose crate-local callees are at least half the same.  Returns (new text or None, {new id: known id})."""
+    import re
+    path = os.path.join(os.path.dirname(__file__), "anchors.json")
+    if not os.path.exists(path):
+        return None, {}
+    with open(path) as fh:
+        table = json.load(fh)
+    present = {f["id"]: f for f in doc["fns"] if f["kind"] != "closure"}
+    missing = [a for a in table if a not in present]
+    unknown = [f for i, f in present.items() if i not in table and not f.get("from_expansion")]
+    renames = {}
+    for a in missing:
+        want = table[a]
+        cands = []
+        for f in unknown:
+            if f["sp"][0] != want["file"] or f.get("inputs") != want["inputs"] or f.get("output") != want["output"] or f["id"] in renames:
+                continue
+            # (renames of other functions show up in the callee sets too: compare by last path segment of what is still known)
+            have = {c for c in _local_callees(f)}
+            old = set(want["callees"])
+            union = have | old
+            sim = len(have & old) / len(union) if union else 1.0
+            if sim >= 0.5:
+                cands.append((sim, f["id"]))
+        if len(cands) == 1:
+            renames[cands[0][1]] = a
+    if not renames:
+        return None, {}
+    for new, old in sorted(renames.items(), key=lambda kv: -len(kv[0])):
+        text = re.sub(re.escape(new) + r"(?![A-Za-z0-9_])", old.replace("\\", "\\\\"), text)
+    return text, renames
+
+
+def _renumber(node, perm):
+    """applies the local renumbering `perm` ({old: new}) to every place / index projection below `node`"""
+    if isinstance(node, dict):
+        if "l" in node and "p" in node and isinstance(node["l"], int):
+            node["l"] = perm.get(node["l"], node["l"])
+        if node.get("k") == "index" and isinstance(node.get("local"), int):
+            node["local"] = perm.get(node["local"], node["local"])
+        for v in node.values():
+            _renumber(v, perm)
+    elif isinstance(node, list):
+        for v in node:
+            _renumber(v, perm)
+
+
+def normalize_param_order(doc):
+    """A private function whose parameter list was merely reordered (same names and types as frozen in anchors.json, another order)
+    is put back into the frozen order: its argument locals are renumbered and the operands of every direct call are permuted.  The
+    rules name parameters by position.  Returns {function id: new order as written in the source}."""
+    path = os.path.join(os.path.dirname(__file__), "anchors.json")
+    if not os.path.exists(path):
+        return {}
+    with open(path) as fh:
+        table = json.load(fh)
+    done = {}
+    by_id = {f["id"]: f for f in doc["fns"]}
+    for fid, want in table.items():
+        f = by_id.get(fid)
+        if not f or not f.get("mir") or f.get("pub") or not want.get("param_names"):
+            continue
+        m = f["mir"]
+        n = m["arg_count"]
+        have = [(m["locals"][i].get("name"), m["locals"][i]["ty"]) for i in range(1, n + 1)]
+        frozen = list(zip(want["param_names"], want.get("param_tys") or []))
+        if have == frozen or len(have) != len(frozen) or sorted(map(str, have)) != sorted(map(str, frozen)) or len(set(have)) != len(have) or any(nm is None for nm, _ in have):
+            continue
+        # perm: local index now -> local index in the frozen order
+        perm = {i + 1: frozen.index(have[i]) + 1 for i in range(n)}
+        _renumber(m["blocks"], perm)
+        new_locals = list(m["locals"])
+        for old_i, new_i in perm.items():
+            new_locals[new_i] = m["locals"][old_i]
+        m["locals"] = new_locals
+        for key in ("inputs", "params"):
+            if isinstance(f.get(key), list) and len(f[key]) == n:
+                f[key] = [f[key][[o for o, nn in perm.items() if nn == j + 1][0] - 1] for j in range(n)]
+        # call sites
+        for g in doc["fns"]:
+            for blk in (g.get("mir") or {}).get("blocks", []):
+                t = blk.get("term")
+                if t and t.get("k") == "call" and len(t.get("args", [])) == n:
+                    fn = t.get("func") or {}
+                    if fid in (fn.get("resolved"), fn.get("declared")):
+                        t["args"] = [t["args"][[o for o, nn in perm.items() if nn == j + 1][0] - 1] for j in range(n)]
+        done[fid] = [nm for nm, _ in have]
+    return done
+
+
+def load(config="default", repo=None, raw=False):
     path, secs = extract(config, repo)
     with open(path) as fh:
-        doc = json.load(fh)
+        text = fh.read()
+    doc = json.loads(text)
     if doc.get("crate") != "garble_lang":
         raise BuildError("fact file is not for garble_lang")
+    renames = {}
+    if not raw:
+        new_text, renames = normalize_renames(text, doc)
+        if new_text is not None:
+            doc = json.loads(new_text)
+    doc["_renames"] = renames
+    doc["_reordered"] = {} if raw else normalize_param_order(doc)
     doc["_extract_s"] = secs
     doc["_path"] = path
     return doc
